@@ -71,16 +71,32 @@ func (b binding) key() string {
 	return sb.String()
 }
 
-// liveBlocks returns the blocks of fn that can execute when the bound parameters have the given constant values:
-// a conditional branch on a bound parameter (possibly negated) is followed only along the matching successor.
+// liveSuccs returns the successors of b that can be taken when the bound parameters have the given constant
+// values: a conditional branch on a bound parameter (possibly negated) is followed only along the matching edge.
+func liveSuccs(fn *ssa.Function, bind binding, b *ssa.BasicBlock) []*ssa.BasicBlock {
+	if len(bind) > 0 && len(b.Instrs) > 0 {
+		if iff, ok := b.Instrs[len(b.Instrs)-1].(*ssa.If); ok {
+			f := normFact(Fact{iff.Cond, true})
+			for i, p := range fn.Params {
+				if f.Cond == ssa.Value(p) {
+					if v, bound := bind[i]; bound {
+						if v == f.Val {
+							return b.Succs[:1]
+						}
+						return b.Succs[1:2]
+					}
+				}
+			}
+		}
+	}
+	return b.Succs
+}
+
+// liveBlocks returns the blocks of fn that can execute under the binding.
 func liveBlocks(fn *ssa.Function, bind binding) map[*ssa.BasicBlock]bool {
 	live := map[*ssa.BasicBlock]bool{}
 	if len(fn.Blocks) == 0 {
 		return live
-	}
-	paramIdx := map[ssa.Value]int{}
-	for i, p := range fn.Params {
-		paramIdx[p] = i
 	}
 	var stack = []*ssa.BasicBlock{fn.Blocks[0]}
 	for len(stack) > 0 {
@@ -90,23 +106,7 @@ func liveBlocks(fn *ssa.Function, bind binding) map[*ssa.BasicBlock]bool {
 			continue
 		}
 		live[b] = true
-		if len(b.Instrs) > 0 {
-			if iff, ok := b.Instrs[len(b.Instrs)-1].(*ssa.If); ok {
-				f := normFact(Fact{iff.Cond, true})
-				if i, isParam := paramIdx[f.Cond]; isParam {
-					if v, bound := bind[i]; bound {
-						// cond == f.Val means the If condition is true
-						if v == f.Val {
-							stack = append(stack, b.Succs[0])
-						} else {
-							stack = append(stack, b.Succs[1])
-						}
-						continue
-					}
-				}
-			}
-		}
-		stack = append(stack, b.Succs...)
+		stack = append(stack, liveSuccs(fn, bind, b)...)
 	}
 	// recover block (if any) is live when the function has defers
 	if fn.Recover != nil {
